@@ -8,8 +8,7 @@ POLS = ["TT", "TS", "ST", "SS"]
 
 
 def drivers(vlib):
-    impl = vlib.build_cpp("drv_msgpack", ["drv_msgpack.cpp"] + vlib.repo_sources("src/msgpack/*.cpp", "src/common/*.cpp"),
-                          extra=["-fno-sanitize=alignment"])
+    impl = vlib.build_cpp("drv_msgpack", ["drv_msgpack.cpp"] + vlib.repo_sources("src/msgpack/*.cpp", "src/common/*.cpp"))
     model = vlib.build_model("mp")
     return impl, model
 
